@@ -348,6 +348,7 @@ class Expr2Mixin:
                 t = self.truth(sc, cv)
                 cond = t if cond is None else z3.And(cond, t)
                 sc.assume(t)
+                self.narrow(sc, c, True)           # e.g. `if isinstance(p, AlignedPair)` narrows the class set of p
             sc, elt = self.ev1(node.elt, sc)
         finally:
             self.qvars.pop()
@@ -416,6 +417,7 @@ class Expr2Mixin:
                     t = self.truth(sc, cv)
                     cond = t if cond is None else z3.And(cond, t)
                     sc.assume(t)
+                    self.narrow(sc, c, True)
                 sc, elt = self.ev1(node.elt, sc)
             finally:
                 self.qvars.pop()
